@@ -160,7 +160,12 @@ func (s *v4Server) ResetLeases(leases []*dhcpsvc.Lease) (err error) {
 	s.leases = nil
 
 	for _, l := range leases {
-		if !l.IsStatic {
+		if !l.IsStatic && l.Hostname != "" {
+			// Only revalidate the stored hostnames.  A lease without a hostname,
+			// e.g. one that has been offered but not requested yet, must stay
+			// as it was stored: giving it a generated hostname here would make
+			// the table differ from the database, and could push a lease that
+			// already has that hostname out of the table.
 			l.Hostname = s.validHostnameForClient(l.Hostname, l.IP)
 		}
 		err = s.addLease(l)
